@@ -14,7 +14,14 @@ func main() {
 	_, err := n.DB.AddSchema(ctx, os.Args[1])
 	core.Must(err)
 	for _, q := range os.Args[2:] {
-		d, e := n.GQL(ctx, q)
-		fmt.Println(q, "\n  =>", d, e)
+		func() {
+			defer func() {
+				if p := recover(); p != nil {
+					fmt.Println(q, "\n  => PANIC", p)
+				}
+			}()
+			d, e := n.GQL(ctx, q)
+			fmt.Println(q, "\n  =>", d, e)
+		}()
 	}
 }
